@@ -18,6 +18,8 @@ import (
 	"strconv"
 	"strings"
 	"sync"
+
+	"github.com/gkampitakis/go-snaps/match"
 )
 
 type vEvent struct {
@@ -310,6 +312,9 @@ func init() {
 					shared.MatchSnapshot(t, strings.Repeat("x", 100*g))
 					shared.MatchStandaloneJSON(t, `{"g":1}`)
 					shared.MatchJSON(t, `{"k":"v"}`)
+					// YAML with matchers from many goroutines: each result must be its own document
+					ydoc := fmt.Sprintf("g: %d\nsecret: s%d\nlist:\n  - %s\n", g, g, strings.Repeat("y", 40*g+1))
+					shared.MatchYAML(t, ydoc, match.Any("$.secret"))
 					if g%3 == 0 {
 						Skip(&vT{name: fmt.Sprintf("TestSkipped%d", g)})
 					}
@@ -323,7 +328,18 @@ func init() {
 				}
 			}
 			ev := vEvents()
-			if ev[0]+ev[1]+ev[2]+ev[3] != ng*5 {
+			if ev[0]+ev[1]+ev[2]+ev[3] != ng*6 {
+				bad++
+			}
+			// every goroutine's YAML entry holds exactly its own masked document
+			if b, err := os.ReadFile(filepath.Join(defdir, "zz_verif_sched_test.snap")); err == nil {
+				for g := 0; g < ng; g++ {
+					want := fmt.Sprintf("g: %d\nsecret: <Any value>\nlist:\n  - %s\n", g, strings.Repeat("y", 40*g+1))
+					if !strings.Contains(string(b), want) {
+						bad++
+					}
+				}
+			} else {
 				bad++
 			}
 		}
